@@ -3,6 +3,8 @@
 (->) library writer output is walked by vf.ref.fortran and decoded by
 vf.ref.camx_ref; (<-) reference-encoded files are read by the library's
 memmap and record readers."""
+from collections import OrderedDict
+
 import numpy as np
 from hypothesis import strategies as st
 
@@ -29,7 +31,11 @@ RULE = ('Hypothesis: CamxSpec (format in uamiv[AVERAGE EMISSIONS AIRQUALITY '
         'file built from arrays (PseudoNetCDFFile or ioapi_base.from_arrays, '
         'with or without ETFLAG; variables held as float32, float64, '
         'big-endian float32 or int32 with values exactly representable in '
-        'float32, the expected payload being the float32 conversion) -> '
+        'float32, the expected payload being the float32 conversion; one '
+        'case in four carries masked cells - masked variables built in '
+        'memory or the file passed through the library\'s mask(where=, '
+        'dims=) - and must be written as float32 of np.ma.filled(variable)) '
+        '-> '
         'library writer -> bytes must tile as '
         'Fortran records (leading == trailing marker, no gap, no trailing '
         'bytes), reference decoder must accept the layout (record sizes and '
@@ -67,6 +73,9 @@ def cases(draw, tier='quick'):
         spec['route'] = draw(st.sampled_from(routes))
         spec['etflag'] = bool(fmt == 'uamiv' and draw(st.booleans()))
         draw(C.input_dtypes(spec))
+        draw(C.input_masks(spec))
+        if spec.get('mask') and spec['mask']['kind'] == 'build':
+            spec['route'] = 'pnc'
         if fmt == 'wind' and spec['lstagger'] is None:
             # the writer documents/uses LSTAGGER: files built from arrays
             # carry one
@@ -187,6 +196,20 @@ def check_w2r(r, spec, m):
     if not ok:
         return
     f = built[0]
+    want_vars = OrderedDict((n, a) for n, (d, a) in m.vars.items())
+    if spec.get('mask'):
+        # masked cells must reach the disk as the variable's fill value
+        # (what ncf2uamiv / ncf2lateral_boundary / ncf2one3d implement with
+        # np.ma.filled / MaskedArray.tobytes)
+        n0 = len(r.failures)
+        ok, fe = guard(r, 'w2r-build', C.filled_expectation, f, list(m.vars))
+        gfail(r, spec, n0)
+        if not ok:
+            return
+        want_vars = fe[0]
+        if fe[1] == 0 and spec['nx'] * spec['ny'] * spec['nz'] > 1:
+            fail(r, spec, 'w2r-build', 'mask description produced no masked '
+                 'cell')
     path = libstate.scratch_path('.' + spec['fmt'])
     try:
         n0 = len(r.failures)
@@ -236,9 +259,11 @@ def check_w2r(r, spec, m):
             list(v.vars), list(m.vars)))
         return
     for name, (dims, arr) in m.vars.items():
-        msg = C.cmp_bits(v.vars[name], arr, 'decoded %s%r' % (name, dims))
+        msg = C.cmp_bits(v.vars[name], want_vars[name],
+                         'decoded %s%r' % (name, dims))
         if msg:
-            fail(r, spec, 'w2r-values', msg)
+            fail(r, spec, 'w2r-values', msg,
+                 'masked-input' if spec.get('mask') else '')
             break
 
 
@@ -399,6 +424,8 @@ def check_case(spec):
         r.label('route:' + spec.get('route', 'pnc') +
                 ('+etflag' if spec.get('etflag') else ''),
                 'vdtype:' + spec.get('vdtype', 'f4'))
+        if spec.get('mask'):
+            r.label('masked-input:' + spec['mask']['kind'])
         check_w2r(r, spec, m)
     else:
         r.label('reader:' + spec.get('reader', 'memmap'))
@@ -475,3 +502,15 @@ known.register('C09-read-uamiv-emissions-squeeze', lambda spec, f: (
 known.register('C09-uamiv-tstep-multiday', lambda spec, f: (
     _fmt(spec, 'uamiv') and spec.get('step_h', 1) > 24 and
     f.clause == 'r2l-derived' and f.klass == 'uamiv/TSTEP'))
+known.register('C09-read-uamiv-emissions-layers', lambda spec, f: (
+    _fmt(spec, 'uamiv') and spec.get('reader') == 'read' and
+    spec.get('name') == 'EMISSIONS' and spec['nz'] > 1 and
+    f.clause in ('r2l-dim', 'r2l-values', 'r2l-read-raises')))
+MASK_RAISERS = ('temperature', 'height_pressure', 'wind', 'cloud_rain')
+known.register('C09-met-writers-masked-tofile', lambda spec, f: (
+    bool(spec.get('mask')) and spec['fmt'] in MASK_RAISERS and
+    f.clause == 'w2r-write-raises' and f.where.startswith(
+        'NotImplementedError@camxfiles/%s/Write.py' % spec['fmt'])))
+known.register('C09-landuse-masked-stale', lambda spec, f: (
+    bool(spec.get('mask')) and spec['fmt'] == 'landuse' and
+    f.clause == 'w2r-values' and f.klass == 'landuse/masked-input'))
